@@ -415,10 +415,16 @@ def run_extreme(case, drv):
 def gen_sb(rng):
     nd = rng.choice([1, 2, 2, 3])
     dims = [rng.choice([1, 2, 3, 5, 8]) for _ in range(nd)]
-    return {"kind": "sb", "dims": dims, "dtype": rng.choice(["f64", "f32"]), "freq": rng.choice([2, 3, 5, 8]),
+    dt = rng.choice(["f64", "f32"])
+    # a measure space far from the origin (float64): the epsilon added before the search is absolute, whatever |m|
+    off = rng.choice([0, 0, 1000, -50000]) if dt == "f64" else 0
+    return {"kind": "sb", "dims": dims, "dtype": dt, "freq": rng.choice([2, 3, 5, 8]),
             "cap": rng.choice([1, 3, 8, 30]) if False else rng.choice([3, 8, 30]), "nadd": rng.randint(0, 30),
-            "seed": rng.randrange(10**6), "dup": rng.random() < 0.4,
-            "ops": [[rng.random() for _ in range(nd)] + [rng.choice(["in", "bnd", "ulp", "out"])]
+            "seed": rng.randrange(10**6), "dup": rng.random() < 0.4, "off": off,
+            # `peek`: the reported boundaries are read right after construction and again between insertions -- what
+            # is reported later must still be what index_of uses (a derived view that is computed once goes stale)
+            "peek": rng.random() < 0.5,
+            "ops": [[rng.random() for _ in range(nd)] + [rng.choice(["in", "bnd", "ulp", "out", "eps", "eps"])]
                     for _ in range(rng.randint(6, 25))]}
 
 
@@ -428,12 +434,19 @@ def run_sb(case, drv):
     dt = case["dtype"]
     nd = len(case["dims"])
     r = random.Random(case["seed"])
-    a = SlidingBoundariesArchive(solution_dim=1, dims=case["dims"], ranges=[(-1, 1)] * nd, dtype=NP[dt],
+    off = case.get("off", 0)
+    a = SlidingBoundariesArchive(solution_dim=1, dims=case["dims"], ranges=[(off - 1, off + 1)] * nd, dtype=NP[dt],
                                  remap_frequency=case["freq"], buffer_capacity=case["cap"])
-    pool = [r.uniform(-3, 3) for _ in range(4)]
+    peeks = 0
+    if case.get("peek"):
+        peeks += sum(len(b) for b in a.boundaries)
+    pool = [off + r.uniform(-3, 3) for _ in range(4)]
     for t in range(case["nadd"]):
-        m = [r.choice(pool) if case["dup"] else r.uniform(-3, 3) for _ in range(nd)]
+        m = [r.choice(pool) if case["dup"] else off + r.uniform(-3, 3) for _ in range(nd)]
         a.add_single([float(t)], r.uniform(-1, 1), m)
+        if case.get("peek") and t % 3 == 0:
+            peeks += sum(len(b) for b in a.boundaries) + len(a.lower_bounds) + len(a.upper_bounds)
+    del peeks
     eps = fx(a.epsilon)
     u = U[dt]
     pts = []
@@ -448,6 +461,9 @@ def run_sb(case, drv):
                 x = float(b[r.randrange(case["dims"][k] + 1)])
             elif st == "ulp":
                 x = nudge(float(b[r.randrange(case["dims"][k] + 1)]), r.choice([-2, -1, 1, 2]), dt)
+            elif st == "eps":
+                # a few epsilon below / above a boundary (below by more than epsilon is the cell below, at any |m|)
+                x = float(b[r.randrange(case["dims"][k] + 1)]) + float(a.epsilon) * r.choice([-400, -30, -3, -1.5, -0.5, 0.5, 3])
             else:
                 x = r.choice([-1, 1]) * 10.0**r.randint(1, 30)
             vec.append(float(NP[dt](x)))
